@@ -17,6 +17,15 @@
    (6) Soundness with references and CDATA (in_fragment_t, Proofs/CstSoundT.v: printable ASCII / TAB / LF, '&' and
    '<![' allowed, numeric references denote scalar values -- the documented U+FFFD leniency excluded): every accepted input
    is the rendering of a well-formed document of Spec/CstText.v, with NO condition on the result (parse_sound_fragment_t).
+   (7) Namespace constraints at document level (Spec/CstNs.v): a syntactically well-formed document that violates one of
+   N1-N7 (undeclared prefix, duplicate declaration, duplicate attribute by expanded name, misuse of xml / xmlns prefixes
+   and URIs) is rejected with one of the namespace error variants (ns_violation_rejected).  (8) Soundness WITH NAMESPACES
+   (in_fragment_n, Proofs/CstSoundN.v: valid UTF-8, qualified names and xmlns declarations allowed, references and CDATA
+   allowed; no CR, DOCTYPE, XML declaration, BOM; numeric references scalar; no leading-colon names and no colon in PI
+   targets -- two leniencies, each with its Example): every accepted input is the rendering of a well-formed document of
+   Spec/CstFull.v stage S2, hence satisfies N1-N7 on normalised URIs; the resource bounds of the completeness theorem
+   follow from acceptance (parse_sound_fragment_n_res), so the parsed tree IS the document's meaning
+   (parse_sound_and_complete_n).
    Statements are pinned here (copied verbatim from the proof files by tools/pin_props.py);
    each is re-proved by `exact` and followed by Print Assumptions. *)
 From Coq Require Import Ascii String.
@@ -26,8 +35,8 @@ From RX Require Import Generated.
 From RX.Model Require Import Base CharClass Stream Tokenizer Doc Builder Parse Api.
 From RX.Spec Require Chars.
 From RX.Spec Require Cst.
-From RX.Proofs Require Import CharTablesProofs RejectProofs WfParseTok WfParseChars WfParse CstSound CstSoundDoc CstSoundCor TruncMain TruncDtdMain CstSoundU CstSoundUDoc CstSoundUCor CstSoundT CstSoundTDoc CstSoundTCor.
-From RX.Spec Require CstU CstText.
+From RX.Proofs Require Import CharTablesProofs RejectProofs WfParseTok WfParseChars WfParse CstSound CstSoundDoc CstSoundCor TruncMain TruncDtdMain CstSoundU CstSoundUDoc CstSoundUCor CstSoundT CstSoundTDoc CstSoundTCor NsRejDefs NsRejBuild NsRejMain CstNsView CstFullMain CstSoundN CstSoundNDoc CstSoundNCor.
+From RX.Spec Require CstU CstText CstNs CstFull.
 Open Scope N_scope.
 
 (* ---- Proofs/CharTablesProofs.v ---- *)
@@ -329,3 +338,54 @@ Theorem C08_parse_sound_and_complete_t :
     CstText.wf_doc c = true /\ CstText.render c = text /\ CstMain.view text d = CstText.sem c.
 Proof. exact parse_sound_and_complete_t. Qed.
 Print Assumptions C08_parse_sound_and_complete_t.
+
+(* ---- Proofs/CstSoundNDoc.v ---- *)
+Module G11.
+Import CstFull.
+Theorem C08_parse_sound_fragment_n :
+  forall text opt d,
+  in_fragment_n text = true -> parse text opt = Ok d ->
+  exists c : S2.doc, S2.wf_doc c = true /\ S2.render c = text.
+Proof. exact parse_sound_fragment_n. Qed.
+Print Assumptions C08_parse_sound_fragment_n.
+
+Theorem C08_parse_sound_fragment_n_res :
+  forall text opt d,
+  in_fragment_n text = true -> parse text opt = Ok d ->
+  exists c : S2.doc, S2.wf_doc c = true /\ S2.render c = text /\
+    S2.distinct_decls_le c (N.to_nat 65535) /\ 1 + N.of_nat (S2.ns_cost c) <= u32_max.
+Proof. exact parse_sound_fragment_n_res. Qed.
+Print Assumptions C08_parse_sound_fragment_n_res.
+
+End G11.
+
+(* ---- Proofs/CstSoundNCor.v ---- *)
+Module G12.
+Import CstFull.
+Theorem C08_parse_sound_and_complete_n :
+  forall text opt d,
+  in_fragment_n text = true -> parse text opt = Ok d ->
+  N.of_nat (length text) <= nodes_limit opt ->      (* room for all nodes *)
+  N.of_nat (length text) <= u32_max ->              (* the input is at most u32::MAX bytes long *)
+  exists c : S2.doc,
+    S2.wf_doc c = true /\ S2.render c = text /\ CstNsView.view text d = Some (S2.sem c).
+Proof. exact parse_sound_and_complete_n. Qed.
+Print Assumptions C08_parse_sound_and_complete_n.
+
+End G12.
+
+(* ---- Proofs/NsRejMain.v ---- *)
+Module G13.
+Import CstNs.
+Theorem C08_ns_violation_rejected :
+  forall (c : doc) (opt : options),
+  wf_syntax_ns c = true -> ns_conditions c = false ->
+  N.of_nat (length (sem c)) < nodes_limit opt ->
+  N.of_nat (length (render c)) <= u32_max ->
+  distinct_decls_le (d_root c) (N.to_nat 65535) ->
+  1 + N.of_nat (ns_cost [] (d_root c)) <= u32_max ->
+  exists e, parse (render c) opt = Err e /\ is_ns_error e = true.
+Proof. exact ns_violation_rejected. Qed.
+Print Assumptions C08_ns_violation_rejected.
+
+End G13.
